@@ -656,7 +656,9 @@ class Runner:
             info = describe(case, w, tstr[w])
             stream = "explicit sum over spike pairs (S)" if name == "S" else "recurrence model (M)"
             ex.findings.append(Finding(kindf, key, f"{what} after step {t}: real {obs} vs {stream} {exp} "
-                                       f"[{case['variant']} {case['conn']} delay={case['delaymode']} k={case['delays'][w]} history {tstr[w]}]",
+                                       f"[{case['variant']} {case['conn']} delay={case['delaymode']} k={case['delays'][w]} history {tstr[w]}" +
+                                       (f"; trainer.clear({'keepshape=True' if case.get('clear_keep') else ''}) before step {case['clear_at']}]"
+                                        if case.get("clear_at") is not None else "]"),
                                        {"case": rep, "weight": info, "step": t, "expected": exp, "observed": obs, "stream": name}))
         return problems
 
@@ -803,7 +805,7 @@ def explore(ctx) -> Exploration:
     nmc = 90 if heavy else 30
     for r in range(nmc):
         v = ["stdp", "mstdp-s", "triplet", "mstdpet-s", "stdp", "mstdp-t"][r % 6]
-        topo = "shared-post" if r % 2 == 0 else "shared-conn"
+        topo = "shared-post" if (r + r // 6) % 2 == 0 else "shared-conn"
         near_pair = [(False, True), (True, False), (False, False), (True, True)][(r // 2) % 4]
         R.add_multi(make_multicell(rng, v, topo, near_pair, rng.choice(DELAYMODES)), "multi-cell")
     R.flush()
